@@ -252,14 +252,37 @@ def _r1_enumerator(ctx):
     g = ctx.fn(BAMFUNC, 'get_contigs_with_reads')
     ys = [y for y in walk_no_nested(g) if isinstance(y, ast.Yield)]
     # idxstats columns are (contig, length, mapped, unmapped): the counts are the 3rd and 4th name of the row unpacking
-    unp = [s for s in walk_no_nested(g) if isinstance(s, ast.Assign) and isinstance(s.targets[0], ast.Tuple) and len(s.targets[0].elts) == 4 and 'split' in src(s.value)]
+    def from_split(v):
+        if isinstance(v, ast.Name):
+            ds = [a for a in walk_no_nested(g) if isinstance(a, ast.Assign) and len(a.targets) == 1 and src(a.targets[0]) == v.id]
+            return len(ds) == 1 and 'split' in src(ds[0].value)
+        return 'split' in src(v)
+    unp = [s for s in walk_no_nested(g) if isinstance(s, ast.Assign) and isinstance(s.targets[0], ast.Tuple) and len(s.targets[0].elts) == 4 and from_split(s.value)]
+    # a guard on the number of fields of the row only removes rows the 4-name unpacking rejects anyway (ValueError -> row skipped)
+    row = src(unp[0].value) if len(unp) == 1 else None
+
+    def irrelevant(t_):
+        if 'with_length' in names_in(t_):
+            return True
+        return row is not None and isinstance(t_, ast.Compare) and len(t_.ops) == 1 and isinstance(t_.ops[0], (ast.NotEq, ast.Eq)) and \
+            src(t_.left) == f'len({row})' and isinstance(t_.comparators[0], ast.Constant) and t_.comparators[0].value == 4
     nm = {}
     if len(unp) == 1 and all(isinstance(e, ast.Name) for e in unp[0].targets[0].elts):
         nm = {unp[0].targets[0].elts[2].id: 'm', unp[0].targets[0].elts[3].id: 'u'}
     ok = bool(ys) and bool(nm)
     why = 'row unpacking / yields not found'
     for y in ys:
-        t = reach_expr(g.body, y, drop=lambda t_: 'with_length' in names_in(t_))
+        t = reach_expr(g.body, y, drop=irrelevant)
+        if t is not None:
+            # int(<count field>) is the count itself
+            class _Int(ast.NodeTransformer):
+                def visit_Call(self, n):
+                    self.generic_visit(n)
+                    if src(n.func) == 'int' and len(n.args) == 1 and not n.keywords and isinstance(n.args[0], ast.Name) and n.args[0].id in nm:
+                        return n.args[0]
+                    return n
+            import copy as _copy
+            t = _Int().visit(_copy.deepcopy(t))
         okk = t is not None and pred_is(t, lambda e: e['m'] > 0 or e['u'] > 0, nm, consts=(0, 1))
         ok = ok and okk
         why = 'yields a contig iff it has mapped or unmapped (placed) records' if okk else f'yield condition `{src(t) if t is not None else None}` differs from "mapped > 0 or unmapped > 0"'
